@@ -66,3 +66,140 @@ Theorem C20_nothing_retained_without_caching_encrypt : forall svc prod t0 ops s 
   (forall k, (k < List.length (w_kobjs w))%nat -> nth_error (w_kobjs w') k = nth_error (w_kobjs w) k).
 Proof. exact nocache_encrypt_releases_all_but_one. Qed.
 Print Assumptions C20_nothing_retained_without_caching_encrypt.
+
+(* The same at the level of a session (Envelope/Repeat.v).  `ext` keeps the metastore and KMS events of a trace.
+   - a Decrypt / an Encrypt that finds the key it needs FRESH in the session's key cache makes no metastore and no KMS call and leaves
+     the key table alone, whatever the cache's policy and whatever else is in the world;
+   - "repeating a decrypt that already succeeded": with the default (simple, never evicting) key cache, in EVERY world in which a
+     Decrypt succeeded, the same Decrypt run again makes no metastore and no KMS call - whichever of GetOrLoad's paths the first one
+     took (fresh hit, hit after the second look, load through the metastore and the KMS).  For how long the entry stays fresh is
+     C20_fresh_means: one interval from its load.  (The encrypt-side repeat over the `latest` alias and the evicting policies
+     are covered by the correspondence, not by a theorem.) *)
+From Asherah Require Import Envelope.Repeat.
+
+Theorem C20_decrypt_with_fresh_key_makes_no_metastore_or_kms_call : forall e r key pm cid w k w1,
+  en_ik e = Some cid -> d_key r = Some key -> e_parent key = Some pm ->
+  kc_get_fresh cid (p_rci (en_pol e)) pm w = (inr (Some (k, true)), w1) ->
+  let w' := snd (decrypt_data_row_record e r w) in
+  w_store w' = w_store w /\ ext (w_trace w') = ext (w_trace w).
+Proof. exact decrypt_with_fresh_key_makes_no_external_call. Qed.
+Print Assumptions C20_decrypt_with_fresh_key_makes_no_metastore_or_kms_call.
+
+Theorem C20_encrypt_with_fresh_valid_key_makes_no_metastore_or_kms_call : forall e payload cid w k w1 w2,
+  en_ik e = Some cid ->
+  kc_get_fresh cid (p_rci (en_pol e)) {| km_id := ik_id e; km_created := 0 |} w = (inr (Some (k, true)), w1) ->
+  is_key_invalid k (p_expire (en_pol e)) w1 = (inr false, w2) ->
+  let w' := snd (encrypt_payload e payload w) in
+  w_store w' = w_store w /\ ext (w_trace w') = ext (w_trace w).
+Proof. exact encrypt_with_fresh_valid_key_makes_no_external_call. Qed.
+Print Assumptions C20_encrypt_with_fresh_valid_key_makes_no_metastore_or_kms_call.
+
+Theorem C20_repeated_decrypt_makes_no_metastore_or_kms_call : forall e r key pm cid p w w' kc m,
+  en_ik e = Some cid -> d_key r = Some key -> e_parent key = Some pm -> km_created pm <> 0%Z -> (0 <= p_rci (en_pol e))%Z ->
+  decrypt_data_row_record e r w = (inr p, w') ->
+  nth_error (w_caches w') cid = Some kc -> kc_backing kc = BSimple m ->
+  let w'' := snd (decrypt_data_row_record e r w') in
+  w_store w'' = w_store w' /\ ext (w_trace w'') = ext (w_trace w').
+Proof. exact repeated_decrypt_makes_no_external_call. Qed.
+Print Assumptions C20_repeated_decrypt_makes_no_metastore_or_kms_call.
+
+(* the premises are met in a reachable world: a cold second factory decrypts a record (metastore and KMS are consulted, the key ends
+   up in a simple cache), then decrypts it again *)
+Theorem C20_repeated_decrypt_premises_met : rep_check = true.
+Proof. exact repeated_decrypt_premises_met. Qed.
+Print Assumptions C20_repeated_decrypt_premises_met.
+
+(* ... and as a statement about history steps (Envelope/RepeatH.v): from EVERY history state - whatever operations, fault plans, clock
+   changes and revocations led to it - if a Decrypt step of a genuine record succeeds on a session whose key cache is the default simple
+   one, the same step taken again reports no metastore and no KMS event (the trace the correspondence compares with the
+   implementation's) and leaves the key table alone. *)
+From Asherah Require Import Envelope.RepeatH.
+
+Theorem C20_repeated_decrypt_step_reports_no_metastore_or_kms_event : forall h s rec x fa cid r0 key pm po,
+  nth_error (w_sessions (h_world h)) s = Some x -> nth_error (w_factories (h_world h)) (ss_factory x) = Some fa -> ss_ik x = Some cid ->
+  nth_error (h_recs h) rec = Some r0 -> d_key r0 = Some key -> e_parent key = Some pm -> km_created pm <> 0%Z -> (0 <= p_rci (fa_policy fa))%Z ->
+  fst (fst (hstep h (HDecrypt s rec [] []))) = ODec po ->
+  let h1 := snd (hstep h (HDecrypt s rec [] [])) in
+  (exists kc m, nth_error (w_caches (h_world h1)) cid = Some kc /\ kc_backing kc = BSimple m) ->
+  let st := hstep h1 (HDecrypt s rec [] []) in
+  filter is_ext (snd (fst st)) = [] /\ w_store (h_world (snd st)) = w_store (h_world h1).
+Proof. exact repeated_decrypt_step_makes_no_external_call. Qed.
+Print Assumptions C20_repeated_decrypt_step_reports_no_metastore_or_kms_event.
+
+Theorem C20_repeated_decrypt_step_met : rep_check_h = true.
+Proof. exact repeated_decrypt_step_met. Qed.
+Print Assumptions C20_repeated_decrypt_step_met.
+
+(* "... until the revoke-check interval has elapsed": after the successful step the clock moves on by any d that keeps the cached entry
+   (the one the session's simple key cache holds for the record's key) within one interval of its load; the same Decrypt step still reports
+   no metastore and no KMS event.  Past the interval an entry not flagged revoked is stale (C20_fresh_means) and the cache runs its load
+   path once (C20_stale_loads). *)
+Theorem C20_repeated_decrypt_step_within_the_interval : forall h s rec x fa cid r0 key pm po d kc m e,
+  nth_error (w_sessions (h_world h)) s = Some x -> nth_error (w_factories (h_world h)) (ss_factory x) = Some fa -> ss_ik x = Some cid ->
+  nth_error (h_recs h) rec = Some r0 -> d_key r0 = Some key -> e_parent key = Some pm -> km_created pm <> 0%Z -> (0 <= p_rci (fa_policy fa))%Z ->
+  fst (fst (hstep h (HDecrypt s rec [] []))) = ODec po ->
+  let h1 := snd (hstep h (HDecrypt s rec [] [])) in
+  nth_error (w_caches (h_world h1)) cid = Some kc -> kc_backing kc = BSimple m ->
+  assoc_get (cache_key (km_id pm) (km_created pm)) m = Some e ->
+  (w_now (h_world h1) + d <= ce_loaded e + p_rci (fa_policy fa))%Z ->
+  let h2 := snd (hstep h1 (HAdvance d)) in
+  let st := hstep h2 (HDecrypt s rec [] []) in
+  filter is_ext (snd (fst st)) = [] /\ w_store (h_world (snd st)) = w_store (h_world h1).
+Proof. exact repeated_decrypt_step_within_the_interval. Qed.
+Print Assumptions C20_repeated_decrypt_step_within_the_interval.
+
+Theorem C20_repeated_decrypt_interval_boundary : rep_check_interval = true.
+Proof. exact repeated_decrypt_interval_boundary. Qed.
+Print Assumptions C20_repeated_decrypt_interval_boundary.
+
+(* "a system key is unwrapped by the KMS at most once per factory per interval however many sessions and partitions use it", decrypt side
+   (Envelope/SkOnce.v; `kms` keeps the KMS events of a trace).  Once any session env e of a factory obtained system key pm through the
+   factory's (simple) system-key cache - whether that unwrapped it with the KMS or found it cached - then in every world that kept the caches,
+   the clock and the key objects' flags (sameK), every load of an intermediate key whose row names pm as its parent, by ANY session env e2
+   of that factory (another partition, a new session), makes no KMS call.  The fault plan is arbitrary.  Freshness is the cache's own
+   (C20_fresh_means): it lasts one interval from the load. *)
+From Asherah Require Import Envelope.SkOnce.
+
+Theorem C20_system_key_unwrapped_at_most_once : forall e pm sc k w w1,
+  en_sk e = Some sc -> km_created pm <> 0%Z -> (0 <= p_rci (en_pol e))%Z ->
+  get_or_load_system_key e pm w = (inr k, w1) ->
+  forall w2 kc m, sameK w1 w2 -> nth_error (w_caches w2) sc = Some kc -> kc_backing kc = BSimple m ->
+  forall e2 meta, en_sk e2 = Some sc -> p_rci (en_pol e2) = p_rci (en_pol e) ->
+    (forall r, store_find (km_id meta) (km_created meta) (w_store w2) = Some r -> e_parent r = Some pm) ->
+    kms (w_trace (snd (load_intermediate_key e2 meta w2))) = kms (w_trace w2).
+Proof. exact system_key_unwrapped_at_most_once. Qed.
+Print Assumptions C20_system_key_unwrapped_at_most_once.
+
+(* in a reachable history: a cold reader factory decrypts partition p's record (one KMS decrypt), then, in a new session for partition q,
+   q's record: the intermediate key row is read from the metastore, the KMS is not called *)
+Theorem C20_system_key_unwrapped_once_met : sk_once_check = true.
+Proof. exact system_key_unwrapped_once_met. Qed.
+Print Assumptions C20_system_key_unwrapped_once_met.
+
+(* ... encrypt side: a session that has to find or CREATE an intermediate key (a new partition, an expired or missing key) while the
+   factory's simple system-key cache holds the latest system key l as key object k - alias pointing at it, not revoked, not expired,
+   loaded at most one interval ago (JL) - and every stored intermediate key of the partition names l (HR): loadLatestOrCreateIntermediateKey,
+   whole - reading the latest row, validating it, creating and storing a new key, the duplicate fallback - makes no KMS call, under
+   any fault plan. *)
+Theorem C20_find_or_create_intermediate_key_needs_no_kms : forall sc k e l,
+  en_sk e = Some sc -> km_created l <> 0%Z -> km_id l = sk_id e ->
+  forall w, JL sc k e l w -> HR e l w ->
+  kms (w_trace (snd (load_latest_or_create_intermediate_key e (ik_id e) w))) = kms (w_trace w).
+Proof. exact find_or_create_intermediate_key_needs_no_kms. Qed.
+Print Assumptions C20_find_or_create_intermediate_key_needs_no_kms.
+
+(* JL and HR are decidable (JLb_ok, HRb_ok) and hold in a reachable world: after partition p's first encrypt (which wrapped the new system
+   key: one KMS encrypt), a new session of the same factory for the new partition q; its first encrypt then creates q's intermediate key,
+   reads and writes rows, and does not call the KMS *)
+Theorem C20_find_or_create_premises_met : enc_once_premises = true.
+Proof. exact find_or_create_premises_met. Qed.
+Print Assumptions C20_find_or_create_premises_met.
+Theorem C20_find_or_create_needs_no_kms_met : enc_once_check = true.
+Proof. exact find_or_create_needs_no_kms_met. Qed.
+Print Assumptions C20_find_or_create_needs_no_kms_met.
+Theorem C20_JLb_decides : forall sc k e l w, JLb sc k e l w = true -> JL sc k e l w.
+Proof. exact JLb_ok. Qed.
+Print Assumptions C20_JLb_decides.
+Theorem C20_HRb_decides : forall e l w, HRb e l w = true -> HR e l w.
+Proof. exact HRb_ok. Qed.
+Print Assumptions C20_HRb_decides.
